@@ -837,6 +837,10 @@ func routeBatch(cfg *RunCfg, st *Stats, w *CaseWriter, distinct DistinctSet, ind
 				m, cls := pathFold(cfg, e.name)
 				qs = append(qs, query{e.ns, m, cls})
 			}
+			if e.name != "" && (!full || i%4 == 0) {
+				m, cls := twoHazards(cfg, e.name)
+				qs = append(qs, query{e.ns, m, cls})
+			}
 			if !full {
 				for j := 0; j < 4; j++ {
 					m, cls := wireMiss(cfg, e.name, wireTokens[r.Intn(len(wireTokens))], r.Intn(4))
@@ -1061,8 +1065,10 @@ func routeBatch(cfg *RunCfg, st *Stats, w *CaseWriter, distinct DistinctSet, ind
 				st.Fail(index, "ran-without-request", fmt.Sprintf("handler %s ran although no request header arrived", got), qh)
 			case obs[i].ok:
 				st.Fail(index, "reply-identity", "the call completed OK although no request header arrived", qh)
-			case proto == "http" && q.ns == "call" && effOK && targetHazard(eff):
+			case proto == "http" && q.ns == "call" && effOK && targetResidue(q.name):
 				failKnown(st, index, "http-target-not-escaped", fmt.Sprintf("the request for path %q (asked as %q) was not delivered: status %d, session lost=%v", eff, q.name, obs[i].code, lost[i]), qh)
+			case lost[i]:
+				st.Fail(index, "request-ended-session", fmt.Sprintf("the request for %q (asked as %q) was not delivered and the session was lost (status %d)", eff, q.name, obs[i].code), qh)
 			case proto == "http" && q.ns == "push":
 				st.Count("http-push-refused")
 			case effOK && eff != "":
@@ -1075,10 +1081,7 @@ func routeBatch(cfg *RunCfg, st *Stats, w *CaseWriter, distinct DistinctSet, ind
 		dname := eff
 		if sn := seen[0].name; !effOK || sn != eff {
 			switch {
-			case effOK && (proto == "json" || proto == "wsjson") && jsonCut(eff, sn):
-				failKnown(st, index, "json-name-truncated", fmt.Sprintf("the caller asked for %q, the serving peer looked up %q", eff, sn), qh)
-				dname = sn
-			case effOK && proto == "http" && targetHazard(eff):
+			case effOK && proto == "http" && targetResidue(q.name):
 				failKnown(st, index, "http-target-not-escaped", fmt.Sprintf("the caller asked for path %q (as %q), the serving peer looked up %q", eff, q.name, sn), qh)
 				dname = sn
 			case !effOK:
